@@ -1762,6 +1762,10 @@ int ov_pcm_seek(OggVorbis_File *vf,ogg_int64_t pos){
       ogg_int64_t target=(pos-vf->pcm_offset)>>hs;
       long samples=vorbis_synthesis_pcmout(&vf->vd,NULL);
 
+      /* at half rate an odd offset can sit less than one output sample
+         below the target; there is nothing left to discard */
+      if(target<=0)break;
+
       if(samples>target)samples=target;
       vorbis_synthesis_read(&vf->vd,samples);
       vf->pcm_offset+=samples<<hs;
